@@ -460,6 +460,14 @@ fn read_state(req: &Value) -> Value {
                 json!({"ok": {"records": recs}})
             }
         },
+        "zipoffset_full" => match ZipOffsetBlobStore::load_from_file(path) {
+            Err(e) => json!({"err": e.to_string()}),
+            Ok(st) => {
+                let n = st.len();
+                let gets: Vec<Value> = (0..n.min(READ_LIMIT)).map(|id| match st.get(id as u32) { Ok(d) => json!(hex(&d)), Err(_) => Value::Null }).collect();
+                json!({"ok": {"len": n, "gets": gets, "compress": st.config().compress_level}})
+            }
+        },
         "dict" => match SuffixArrayDictionary::load_from_file(path) {
             Err(e) => json!({"err": e.to_string()}),
             Ok(d) => json!({"ok": {"text": hex(d.data()), "min": d.config().min_pattern_length, "max": d.config().max_pattern_length}}),
@@ -559,15 +567,16 @@ impl Drop for Server { fn drop(&mut self) { let _ = self.child.kill(); let _ = s
 // the check proper
 // =====================================================================================
 const HEADER: &str = r#"From ZV.Common Require Import Base Run.
-From ZV.C19 Require Import Model.
+From ZV.C19 Require Import Model ModelZo ModelPlainDir ModelMvOps ModelRoW ModelCases.
 Open Scope N_scope.
-Definition case_t : Type := Model.case.
-Definition ok (c : case_t) : bool := Model.case_ok c.
+Definition case_t : Type := ModelCases.xcase.
+Definition ok (c : case_t) : bool := ModelCases.xcase_ok c.
 "#;
 
 struct Ctx {
     sum: Summary, shards: CoqShards, budget: usize, srv: Server, root: String, seq: u64, thorough: bool,
     cache: HashMap<u64, Value>, images: u64, coq_seen: std::collections::HashSet<u64>, proto: usize, n_mv: usize, n_ro: usize,
+    n_zo: usize, n_zosave: usize, n_row: usize, n_row_big: usize, n_plain: usize, n_mvops: usize, n_mmio: usize,
 }
 fn dbg_case(cj: &Value) { if std::env::var("ZV_C19_DEBUG").is_ok() { let s = cj.to_string(); eprintln!("[{:?}] case {}", std::time::SystemTime::now().duration_since(std::time::UNIX_EPOCH).map(|d| d.as_millis() % 1000000).unwrap_or(0), &s[..s.len().min(400)]); } }
 fn fnv64(b: &[u8], mut h: u64) -> u64 { for x in b { h ^= *x as u64; h = h.wrapping_mul(0x100000001b3); } h }
@@ -639,7 +648,14 @@ fn brief(v: &Value) -> String { let s = v.to_string(); if s.len() > 300 { format
 fn judge_trace(cx: &mut Ctx, cell: &str, rkey: &str, class_of: &dyn Fn(&Value, &str, &str) -> Option<&'static str>, cj: &Value, extra: &Value, target: &str, dir_target: bool,
                ops: &[Op], marks: &[usize], states: &[Value], final_must: Option<&Value>, byte_marks: &[usize], r: &mut Rng, exhaustive: bool,
                img_state: Option<&dyn Fn(&Disk) -> Vec<Value>>) -> Option<Disk> {
-    let init = Disk::new();
+    judge_trace_from(cx, &Disk::new(), cell, rkey, class_of, cj, extra, target, dir_target, ops, marks, states, final_must, byte_marks, r, exhaustive, img_state)
+}
+/// the same, over files that exist before the traced history starts (`init`)
+#[allow(clippy::too_many_arguments)]
+fn judge_trace_from(cx: &mut Ctx, init: &Disk, cell: &str, rkey: &str, class_of: &dyn Fn(&Value, &str, &str) -> Option<&'static str>, cj: &Value, extra: &Value, target: &str, dir_target: bool,
+               ops: &[Op], marks: &[usize], states: &[Value], final_must: Option<&Value>, byte_marks: &[usize], r: &mut Rng, exhaustive: bool,
+               img_state: Option<&dyn Fn(&Disk) -> Vec<Value>>) -> Option<Disk> {
+    let init = init.clone();
     let mut fin = init.clone();
     for op in ops { apply(&mut fin, op); }
     let extra_pts = if cx.thorough { 24 } else { 6 };
@@ -715,6 +731,20 @@ fn tracer_in_sync(dir: &str, sim: &Disk) -> Result<(), String> {
     Err(why)
 }
 
+/// a traced operation as a Coq `fop`, the file `main` numbered 1 and every other file 2
+fn fop_term(op: &Op, main: &str) -> String {
+    let num = |p: &str| if p == main { 1 } else { 2 };
+    match op {
+        Op::Open { p, creat, trunc } => format!("FOpen {} {} {}", num(p), coq_bool(*creat), coq_bool(*trunc)),
+        Op::SetLen { p, n } => format!("FSetLen {} {}", num(p), n),
+        Op::Write { p, off, data } => format!("FWrite {} {} {}", num(p), off, coq_bytes(data)),
+        Op::Fsync { p } => format!("FFsync {}", num(p)),
+        Op::Rename { a, b } => format!("FRename {} {}", num(a), num(b)),
+        Op::Unlink { p } => format!("FUnlink {}", num(p)),
+    }
+}
+fn coq_bytes_list(xs: &[Vec<u8>]) -> String { format!("[{}]", xs.iter().map(|b| coq_bytes(b)).collect::<Vec<_>>().join("; ")) }
+
 /// Correspondence of the write protocol: the traced operations of one sync()/put()/save, with the target file
 /// numbered 1 and the temporary file 2 and the writes that build the temporary file merged into one, must be the
 /// modelled atomic-replace sequence.  Anything of another shape is emitted as traced.
@@ -751,7 +781,7 @@ fn protocol_case(cx: &mut Ctx, seg: &[Op], main: &str, what: &str) {
     for t in &terms { h = fnv64(t.as_bytes(), h); }
     if !cx.coq_seen.insert(h) { return; }
     cx.proto += 1;
-    cx.shards.push(format!("(COps [{}] {})", terms.join("; "), coq_bytes(&img)), json!({"cell": "protocol", "what": what, "ops": seg.iter().map(op_brief).collect::<Vec<_>>()}));
+    cx.shards.push(format!("(XOld (COps [{}] {}))", terms.join("; "), coq_bytes(&img)), json!({"cell": "protocol", "what": what, "ops": seg.iter().map(op_brief).collect::<Vec<_>>()}));
 }
 
 // ------------------------------------------------------------------ MmapVec
@@ -866,7 +896,7 @@ fn mv_coq_case(cx: &mut Ctx, es: usize, img: &[u8]) {
         for e in st["elems"].as_array().unwrap() { v.push(e.as_u64().unwrap() as i128); }
         v
     } else if out.get("err").is_some() { vec![-1] } else { vec![-2] };
-    cx.shards.push(format!("(CMv {} {} {})", es, coq_bytes(img), coq_z_list(expect)), json!({"cell": "mmapvec_image", "es": es, "image": hex(img)}));
+    cx.shards.push(format!("(XOld (CMv {} {} {}))", es, coq_bytes(img), coq_z_list(expect)), json!({"cell": "mmapvec_image", "es": es, "image": hex(img)}));
 }
 
 fn gen_mv(r: &mut Rng, big: bool) -> (usize, usize, f64, bool, Vec<Vec<u64>>) {
@@ -1032,7 +1062,7 @@ fn reorder_case(cx: &mut Ctx, builds: &[Value], exhaustive: bool) {
     if let Some(f) = fin.as_ref().and_then(|d| d.get("m.bin")) {
         if f.len() <= 1200 && cx.shards.len() < cx.budget {
             // the builder emits the modelled format; the reader agrees with the model on the file and on damaged copies
-            cx.shards.push(format!("(CRoEnc {} {} {})", coq_n_list(last.0.iter().map(|&v| v as u128)), coq_bool(last.1), coq_bytes(f)),
+            cx.shards.push(format!("(XOld (CRoEnc {} {} {}))", coq_n_list(last.0.iter().map(|&v| v as u128)), coq_bool(last.1), coq_bytes(f)),
                            json!({"cell": "reorder_encode", "values": last.0, "neg": last.1}));
             let mut imgs = vec![f.clone()];
             for t in [f.len() - 1, f.len() / 2, 16, 21] { if t < f.len() { imgs.push(f[..t].to_vec()); } }
@@ -1054,7 +1084,7 @@ fn reorder_coq_case(cx: &mut Ctx, img: &[u8]) {
         for e in st["values"].as_array().unwrap() { v.push(e.as_u64().unwrap() as i128); }
         v
     } else if out.get("err").is_some() { vec![-1] } else { return };
-    cx.shards.push(format!("(CRo {} {})", coq_bytes(img), coq_z_list(expect)), json!({"cell": "reorder_image", "image": hex(img)}));
+    cx.shards.push(format!("(XOld (CRo {} {}))", coq_bytes(img), coq_z_list(expect)), json!({"cell": "reorder_image", "image": hex(img)}));
 }
 fn gen_reorder(r: &mut Rng) -> Vec<Value> {
     let nb = if r.chance(1, 3) { 2 } else { 1 };
@@ -1107,18 +1137,18 @@ fn gen_reorder_dense(r: &mut Rng, target: usize, n: usize) -> Vec<Value> {
 /// a file written once by `write` (traced) whose reopened logical state must be `state`
 fn once_case(cx: &mut Ctx, cell: &'static str, key: &'static str, cj: Value, state: Value, fname: &str, exhaustive: bool,
              class_of: &dyn Fn(&Value, &str, &str) -> Option<&'static str>, write: &mut dyn FnMut(&str) -> Result<(), String>, bm: &[usize],
-             img_state: Option<&dyn Fn(&Disk) -> Vec<Value>>) {
+             img_state: Option<&dyn Fn(&Disk) -> Vec<Value>>) -> Option<(Disk, Vec<Op>)> {
     dbg_case(&cj);
     cx.sum.eval(cell, &cj.to_string(), true);
-    cx.sum.cell_status(cell, "S-only");
+    cx.sum.cell_status(cell, if key == "dict" { "S-only" } else { "M+S" });
     let mut r = Rng::new(fnv64(cj.to_string().as_bytes(), 17));
     let dir = cx.fresh_dir("on");
     let path = format!("{}/{}", dir, fname);
     trace::start(&dir);
     let res = guarded(|| write(&path));
     let tr = trace::stop();
-    match res { Err(p) => { cx.sum.fail(cell, class_of(&json!({}), "writer", &p), cj, &format!("writer panicked: {}", p)); return; }
-                Ok(Err(e)) => { cx.sum.dist(&format!("{}_write_refused", key)); if std::env::var("ZV_C19_DEBUG").is_ok() { eprintln!("refused: {}", e); } let _ = std::fs::remove_dir_all(&dir); return; }
+    match res { Err(p) => { cx.sum.fail(cell, class_of(&json!({}), "writer", &p), cj, &format!("writer panicked: {}", p)); return None; }
+                Ok(Err(e)) => { cx.sum.dist(&format!("{}_write_refused", key)); if std::env::var("ZV_C19_DEBUG").is_ok() { eprintln!("refused: {}", e); } let _ = std::fs::remove_dir_all(&dir); return None; }
                 Ok(Ok(())) => {} }
     let mut sim = Disk::new();
     for op in &tr { apply(&mut sim, op); }
@@ -1127,9 +1157,9 @@ fn once_case(cx: &mut Ctx, cell: &'static str, key: &'static str, cj: Value, sta
     let marks = vec![tr.len()];
     if key == "dict" { protocol_case(cx, &tr, fname, "SuffixArrayDictionary::save_to_file"); }
     if key == "zipoffset" { protocol_case(cx, &tr, fname, "ZipOffsetBlobStore::save_to_file"); }
-    judge_trace(cx, cell, key, class_of, &cj, &json!({}), fname, false, &tr, &marks, &states, Some(&state), bm, &mut r, exhaustive, img_state);
+    let fin = judge_trace(cx, cell, key, class_of, &cj, &json!({}), fname, false, &tr, &marks, &states, Some(&state), bm, &mut r, exhaustive, img_state);
     let _ = std::fs::remove_dir_all(&dir);
-    let _ = key;
+    fin.map(|d| (d, tr))
 }
 
 fn zipoffset_case(cx: &mut Ctx, recs: &[String], checksum: u8, exhaustive: bool) {
@@ -1156,7 +1186,76 @@ fn zipoffset_case(cx: &mut Ctx, recs: &[String], checksum: u8, exhaustive: bool)
     let state = json!({"records": held});
     let none = |_: &Value, _: &str, _: &str| -> Option<&'static str> { None };
     let mut w = |path: &str| -> Result<(), String> { build()?.save_to_file(path).map_err(|e| e.to_string()) };
-    once_case(cx, cell, "zipoffset", cj, state, "s.zob", exhaustive, &none, &mut w, &[128], None);
+    let cb: usize = recs.iter().map(|r| r.len() / 2 + if checksum >= 2 { 4 } else { 0 }).sum();
+    let pad = (16 - cb % 16) % 16;
+    let marks = [128, 128 + cb, 128 + cb + pad, 128 + cb + pad + 32];
+    let got = once_case(cx, cell, "zipoffset", cj, state, "s.zob", exhaustive, &none, &mut w, &marks, None);
+    // correspondence: the model's image and operations for these records; the model's loader on the file and on damaged copies
+    if let Some((fin, tr)) = got {
+        if let Some(f) = fin.get("s.zob") {
+            if f.len() <= 1500 {
+                let rb: Vec<Vec<u8>> = recs.iter().map(|r| unhex(r)).collect();
+                if cx.n_zosave < if cx.thorough { 120 } else { 16 } && cx.coq_seen.insert(fnv64(f, 0x205a)) {
+                    cx.n_zosave += 1;
+                    cx.shards.push(format!("(XZoSave {} {} {})", checksum, coq_bytes_list(&rb), coq_bytes(f)), json!({"cell": "zipoffset_save", "records": recs, "checksum": checksum}));
+                    cx.shards.push(format!("(XZoOps {} {} [{}])", checksum, coq_bytes_list(&rb), tr.iter().map(|o| fop_term(o, "s.zob")).collect::<Vec<_>>().join("; ")),
+                                   json!({"cell": "zipoffset_ops", "records": recs, "checksum": checksum, "ops": tr.iter().map(op_brief).collect::<Vec<_>>()}));
+                }
+                let mut r = Rng::new(fnv64(f, 0x51));
+                let mut imgs: Vec<Vec<u8>> = vec![f.clone()];
+                let n = f.len();
+                for t in [n - 1, n - 63, n - 64, n.saturating_sub(65), 128 + cb + pad + 31, 128 + cb + pad, (128 + cb + pad).saturating_sub(1), 128 + cb, 128 + cb / 2, 128, 127, 64, 0] { if t < n { imgs.push(f[..t].to_vec()); } }
+                // header fields, configuration bytes, the offset index: one bit flipped
+                for _ in 0..6 {
+                    let i = match r.below(4) { 0 => 40 + r.below(43) as usize, 1 => r.below(40) as usize, 2 => 128 + cb + pad + r.below(32) as usize, _ => 128 + r.below((n - 128) as u64) as usize };
+                    if i < n { let mut g = f.clone(); g[i] ^= 1 << r.below(8); imgs.push(g); }
+                }
+                // a longer file (bytes after the footer), and the content length field off by one
+                let mut g = f.clone(); g.extend_from_slice(&[7, 7, 7]); imgs.push(g);
+                let mut g = f.clone(); g[64] = g[64].wrapping_add(1); imgs.push(g);
+                for im in imgs { zo_coq_case(cx, &im); }
+            }
+        }
+    }
+}
+fn zo_coq_case(cx: &mut Ctx, img: &[u8]) {
+    if img.len() > 1600 || cx.n_zo >= if cx.thorough { 1500 } else { 190 } { return; }
+    if !cx.coq_seen.insert(fnv64(img, 0x20)) { return; }
+    let mut d = Disk::new(); d.insert("s.zob".into(), img.to_vec());
+    let out = cx.observe("zipoffset_full", &json!({}), &d, "s.zob", false);
+    let expect: String = if let Some(st) = out.get("ok") {
+        let mut v = vec![format!("[{}%Z]", st["len"].as_u64().unwrap_or(0))];
+        for g in st["gets"].as_array().unwrap() {
+            match g.as_str() { Some(h) => { let mut e = vec![1i128]; e.extend(unhex(h).iter().map(|&b| b as i128)); v.push(coq_z_list(e)); } None => v.push("[0%Z]".into()) }
+        }
+        format!("[{}]", v.join("; "))
+    } else if out.get("err").is_some() { "[[(-1)%Z]]".into() } else { "[[(-2)%Z]]".into() };
+    cx.n_zo += 1;
+    cx.shards.push(format!("(XZoLoad {} {})", coq_bytes(img), expect), json!({"cell": "zipoffset_image", "image": hex(img)}));
+}
+/// record sets for the offset-indexed store: content lengths around the 16-byte padding boundary (0, 15, 16, 17, 31, 32,
+/// 33, 48, 64, 160 bytes with and without the 4-byte record checksums), empty records, more than one 64-entry offset block
+fn gen_zip(r: &mut Rng, i: usize) -> (Vec<String>, u8) {
+    let ck = *r.pick(&[0u8, 0, 2, 2, 3, 1]);
+    let per = if ck >= 2 { 4usize } else { 0 };
+    let recs: Vec<Vec<u8>> = match i % 4 {
+        0 => { let n = *r.pick(&[0usize, 1, 2, 5, 30]); (0..n).map(|_| { let l = *r.pick(&[0usize, 1, 3, 15, 16, 17, 100]); r.bytes(l) }).collect() }
+        1 | 2 => {
+            // total content length exactly `target`
+            let target = *r.pick(&[0usize, 15, 16, 17, 31, 32, 33, 48, 64, 160]);
+            let mut left = target; let mut v = vec![];
+            while left > per || (left == per && per > 0) {
+                let l = (r.below(20) as usize).min(left - per);
+                v.push(r.bytes(l)); left -= l + per;
+                if left == 0 { break; }
+            }
+            if left > 0 && per == 0 { v.push(r.bytes(left)); }
+            if target == 0 && r.chance(1, 2) && per == 0 { v.push(vec![]); v.push(vec![]); }
+            v
+        }
+        _ => { let n = *r.pick(&[63usize, 64, 65, 70, 130]); (0..n).map(|_| { let l = *r.pick(&[0usize, 0, 1, 2, 3]); r.bytes(l) }).collect() }
+    };
+    (recs.iter().map(|b| hex(b)).collect(), ck)
 }
 fn dict_case(cx: &mut Ctx, text: &[u8], minp: usize, maxp: usize, exhaustive: bool) {
     let cj = json!({"cell": "dict", "text": hex(text), "min": minp, "max": maxp, "exhaustive": exhaustive});
@@ -1169,7 +1268,7 @@ fn dict_case(cx: &mut Ctx, text: &[u8], minp: usize, maxp: usize, exhaustive: bo
         if d.data() != text { return Err("dictionary text differs from training data".into()); }
         d.save_to_file(path).map_err(|e| e.to_string())
     };
-    once_case(cx, "SuffixArrayDictionary", "dict", cj, state, "d.dict", exhaustive, &none, &mut w, &[8], None);
+    let _ = once_case(cx, "SuffixArrayDictionary", "dict", cj, state, "d.dict", exhaustive, &none, &mut w, &[8], None);
 }
 fn mmio_case(cx: &mut Ctx, chunks: &[String], initial: usize, exhaustive: bool) {
     let cj = json!({"cell": "mmio", "chunks": chunks, "initial": initial, "exhaustive": exhaustive});
@@ -1187,7 +1286,7 @@ fn mmio_case(cx: &mut Ctx, chunks: &[String], initial: usize, exhaustive: bool) 
         o.truncate().map_err(|e| e.to_string())?;
         o.flush().map_err(|e| e.to_string())
     };
-    once_case(cx, "MemoryMappedOutput/Input", "mmio", cj, state, "o.bin", exhaustive, &class_of, &mut w, &[], Some(&img_state));
+    let _ = once_case(cx, "MemoryMappedOutput/Input", "mmio", cj, state, "o.bin", exhaustive, &class_of, &mut w, &[], Some(&img_state));
 }
 
 // ------------------------------------------------------------------ replay / dispatch
@@ -1260,6 +1359,7 @@ pub fn run(args: &Args) {
         shards: CoqShards::new(HEADER, 150),
         budget: if args.thorough { 6000 } else { 1000 },
         srv, root: root.clone(), seq: 0, thorough: args.thorough, cache: HashMap::new(), images: 0, coq_seen: Default::default(), proto: 0, n_mv: 0, n_ro: 0,
+        n_zo: 0, n_zosave: 0, n_row: 0, n_row_big: 0, n_plain: 0, n_mvops: 0, n_mmio: 0,
     };
     cx.sum.cell_status("MmapVec<u8>", "M+S"); cx.sum.cell_status("MmapVec<u64>", "M+S"); cx.sum.cell_status("ZReorderMap", "M+S");
     let mut rng = Rng::new(args.seed);
@@ -1321,10 +1421,11 @@ pub fn run(args: &Args) {
             if i == 0 { cx.sum.sample(json!({"plain": o})); }
             plain_case(&mut cx, &o, false);
         }
-        for _ in 0..(12 * scale) {
-            let n = *rng.pick(&[0usize, 1, 2, 5, 30]);
-            let recs: Vec<String> = (0..n).map(|_| { let l = *rng.pick(&[0usize, 1, 3, 15, 16, 17, 100]); hex(&rng.bytes(l)) }).collect();
-            zipoffset_case(&mut cx, &recs, *rng.pick(&[0u8, 0, 2]), false);
+        for i in 0..(22 * scale) {
+            let (recs, ck) = gen_zip(&mut rng, i as usize);
+            // every byte position on a few small stores
+            let small: usize = recs.iter().map(|r| r.len() / 2).sum();
+            zipoffset_case(&mut cx, &recs, ck, i % 11 == 3 && small <= 200);
         }
         for _ in 0..(6 * scale) {
             let n = *rng.pick(&[16usize, 40, 200, 600]);
